@@ -344,6 +344,130 @@ def gClogProb (logits zc b : List α) : Option α :=
   let G := List.zipWith (fun l nb => -(T.exp (l - zk)) * nb) lg negb
   some (sumL (List.zipWith (· - ·) g G))
 
+/-! ### Parameters of the two relaxed distributions: the two constructions, batch / event shape,
+sample-shape broadcasting
+
+Tensors are flat lists in row-major order together with their shape.  Either distribution is
+constructed with exactly one of `probs=` / `logits=`; the other attribute is a `lazy_property`
+derived from the given one.  `LogisticBernoulli`: every entry is one variable
+(`batch_shape = param.shape`, `event_shape = ()`, `is_binary=True` conversions, elementwise).
+`GumbelOneHotCategorical`: the LAST axis is the class axis (`batch_shape = shape[:-1]`,
+`event_shape = shape[-1:]`); the constructor normalises along it. -/
+
+/-- which keyword the distribution was constructed with -/
+inductive Ctor where
+  | probs
+  | logits
+deriving Repr, DecidableEq
+
+/-- `probs_to_logits(probs, is_binary=True)`: `ps = clamp_probs(probs); ps.log() - (-ps).log1p()` -/
+def probsToLogitsBin (eps p : α) : α :=
+  let ps := clampProbs eps p
+  T.log ps - T.log1p (-ps)
+
+/-- `probs_to_logits(probs)` (not binary): `clamp_probs(probs).log()` -/
+def probsToLogits (eps p : α) : α := T.log (clampProbs eps p)
+
+/-- What a relaxed distribution object holds after construction (flat, row-major tensors of
+shape `batchShape ++ eventShape`). -/
+structure RelaxedParams (α : Type) where
+  batchShape : List Nat
+  eventShape : List Nat
+  probs : List α
+  logits : List α
+
+/-- number of entries of a tensor of that shape -/
+def prodL (s : List Nat) : Nat := s.foldr (· * ·) 1
+
+/-- `LogisticBernoulli(probs=data)` / `LogisticBernoulli(logits=data)`, `data` of shape `shape`:
+```
+self._param = self.probs = probs          | self._param = self.logits = logits
+logits = probs_to_logits(probs, True)     | probs = logits_to_probs(logits, True)   # sigmoid
+batch_shape = param.shape; event_shape = ()
+``` -/
+def lbParams (eps : α) (c : Ctor) (shape : List Nat) (data : List α) : RelaxedParams α :=
+  match c with
+  | .probs => ⟨shape, [], data, data.map (probsToLogitsBin T eps)⟩
+  | .logits => ⟨shape, [], data.map T.sigmoid, data⟩
+
+/-- the rows of the last axis (`V` entries each) of a flat tensor with `n` rows -/
+def rowsOf (V : Nat) : Nat → List α → List (List α)
+  | 0, _ => []
+  | n + 1, l => l.take V :: rowsOf V n (l.drop V)
+
+/-- `probs / probs.sum(-1, keepdim=True)` on one row -/
+def normRow (row : List α) : List α :=
+  let s := sumL row
+  row.map (· / s)
+
+/-- `logits.log_softmax(-1)` on one row (documented meaning: `x_j - log Σ exp x`) -/
+def logSoftmaxRow (row : List α) : List α :=
+  let lse := T.log (sumL (row.map T.exp))
+  row.map (· - lse)
+
+/-- `logits_to_probs(logits)` = `softmax(logits, -1)` on one row -/
+def softmaxRow (row : List α) : List α :=
+  let s := sumL (row.map T.exp)
+  row.map fun x => T.exp x / s
+
+/-- `GumbelOneHotCategorical(probs=data)` / `(logits=data)`, `data` of shape `shape` (at least one
+axis; the last one is the class axis):
+```
+self.probs = probs / probs.sum(-1, keepdim=True)   | self.logits = logits.log_softmax(-1)
+logits = probs_to_logits(self.probs)               | probs = logits_to_probs(self.logits)  # softmax(-1)
+batch_shape, event_shape = shape[:-1], shape[-1:]
+``` -/
+def gParams (eps : α) (c : Ctor) (shape : List Nat) (data : List α) : RelaxedParams α :=
+  let V := shape.getLastD 1
+  let B := shape.dropLast
+  let rows := rowsOf V (prodL B) data
+  match c with
+  | .probs =>
+    let ps := rows.map normRow
+    ⟨B, [V], ps.flatten, (ps.map fun r => r.map (probsToLogits T eps)).flatten⟩
+  | .logits =>
+    let ls := rows.map (logSoftmaxRow T)
+    ⟨B, [V], (ls.map (softmaxRow T)).flatten, ls.flatten⟩
+
+/-- Broadcasting of a tensor of shape `sample_shape ++ batch_shape` (draws, samples, `b`) against
+a parameter of shape `batch_shape` (`B` entries): the entry of flat index `n` meets the parameter
+entry of flat index `n % B`. -/
+def paramAt (xs : List α) (B n : Nat) : α := xs.getD (n % B) 0
+
+/-- The same for the categorical relaxation: row `r` of a tensor of shape
+`sample_shape ++ batch_shape ++ [V]` meets parameter row `r % B`. -/
+def paramRowAt (xs : List α) (V B r : Nat) : List α := (xs.drop ((r % B) * V)).take V
+
+/-- `LogisticBernoulli.rsample(sample_shape)` on the whole tensor: `us` is `torch.rand(shape)`,
+`shape = sample_shape ++ batch_shape` -/
+def lbRsampleT (eps : α) (P : RelaxedParams α) (us : List α) : List α :=
+  us.zipIdx.map fun un => lbRsampleC T eps (paramAt P.logits (prodL P.batchShape) un.2) un.1
+
+/-- `LogisticBernoulli.csample(b)` on the whole tensor (`vs = torch.rand_like(b)`) -/
+def lbCsampleT (eps : α) (P : RelaxedParams α) (vs bs : List α) : List α :=
+  (vs.zip bs).zipIdx.map fun vbn =>
+    lbCsampleC T eps (paramAt P.probs (prodL P.batchShape) vbn.2) vbn.1.1 vbn.1.2
+
+/-- `LogisticBernoulli.tlog_prob(b)` on the whole tensor -/
+def lbTlogProbT (P : RelaxedParams α) (bs : List α) : List α :=
+  bs.zipIdx.map fun bn => lbTlogProb T (paramAt P.logits (prodL P.batchShape) bn.2) bn.1
+
+/-- `GumbelOneHotCategorical.rsample` on the whole tensor; `us` are the rows of `torch.rand` -/
+def gRsampleT (eps : α) (P : RelaxedParams α) (us : List (List α)) : List (List α) :=
+  let V := P.eventShape.headD 1
+  us.zipIdx.map fun un => gRsampleC T eps (paramRowAt P.logits V (prodL P.batchShape) un.2) un.1
+
+/-- `GumbelOneHotCategorical.csample(b)` on the whole tensor -/
+def gCsampleT (eps : α) (P : RelaxedParams α) (vs bs : List (List α)) : List (List α) :=
+  let V := P.eventShape.headD 1
+  (vs.zip bs).zipIdx.map fun vbn =>
+    gCsampleC T eps (paramRowAt P.probs V (prodL P.batchShape) vbn.2) vbn.1.1 vbn.1.2
+
+/-- `GumbelOneHotCategorical.tlog_prob(b)`: shape `b.shape[:-1]`, one number per row -/
+def gTlogProbT (P : RelaxedParams α) (bs : List (List α)) : List α :=
+  let V := P.eventShape.headD 1
+  bs.zipIdx.map fun bn => gTlogProb (paramRowAt P.logits V (prodL P.batchShape) bn.2) bn.1
+
 end Relaxed
 
 /-! ## Combinatorics (`_combinatorics.py`) -/
